@@ -94,7 +94,9 @@ def cmd_compare(argv):
         "engine": "buildmatrix",
         "property_id": ID,
         "configurations": [c[0] for c in cfgs],
-        "evaluations": sum(len(m) for m in maps.values()),
+        # the runs themselves are counted by the legs that executed them; this part only compares
+        "evaluations": 0,
+        "digests_compared": sum(len(m) for m in maps.values()),
         "distinct_nontrivial": distinct,
         "samples": [{"run_index": i, "digest_in_every_configuration": base[i]} for i in sorted(base)[:3]],
         "violations": 0,
